@@ -117,7 +117,7 @@ func TestC04(t *testing.T) {
 		}
 		// evalAll: the literal alone, negated, and followed by a terminator
 		evalAll := func(kind, lit string) error {
-			for _, s := range []string{lit, "-" + lit, lit + ",", " " + lit + "]"} {
+			for _, s := range []string{lit, "-" + lit, lit + ",", " " + lit + "]", "\n\t                 " + lit + "}"} {
 				if strings.HasPrefix(s, "--") {
 					continue
 				}
